@@ -199,7 +199,7 @@ def _gnb(mod):
 
 def r3(ctx):
     rep = ctx.rep
-    vs = ctx.variants(lambda v: 'reject' in v.feats)
+    vs = ctx.variants(lambda v: 'M4_MODE_USES_REJECT' in variants.mode_symbols(v))
     if len(vs) < 10: rep.broken('C07.R3: only %d REJECT variants compiled to IR' % len(vs))
     backends = set()
     for v in vs:
